@@ -40,7 +40,12 @@ class BVal:
 
 
 class WriteAnalysis:
+    """BTSString.write as path summaries (facts.path_returns): for every way the function can end, the integer constraints
+    that hold on that path (linear forms over `size` and L = len(encoded text), each known >= 0) and the abstract value
+    returned. Locals, guard order, if/else versus guard clauses and named intermediates do not matter."""
+
     def __init__(self, prog: Program):
+        from .facts import path_returns
         self.prog = prog
         self.cls = prog.need_cls("BTSString", "tdfTypes")
         self.f = prog.need_method(self.cls, "write")
@@ -50,24 +55,56 @@ class WriteAnalysis:
         self.size_p, self.data_p = ps[0], ps[1]
         self.S = Poly.atom("size")
         self.L = Poly.atom("L")
-        self.env = {}  # name -> BVal | Poly
-        self.nonneg = []  # polynomials known >= 0 on the fall-through path
-        self.guards = []  # (Poly P with raise iff P >= 0, exc, stmt)
-        self.returns = []  # (BVal, stmt, guards snapshot)
-        self.encodes = []  # call nodes
+        self.nonneg = []
+        self.returns = []  # (BVal, stmt, nonneg, guards=[(P, exc, stmt, test text)], value expr)
+        self.raises = []  # (nonneg, exc, stmt, undecided tests, last test)
         self.slices = []
         self.unknown = []
-        self._block(self.f.node.body)
+        self.encodes = [c for c in walk_no_nested(self.f.node) if isinstance(c, ast.Call) and isinstance(c.func, ast.Attribute) and c.func.attr == "encode"]
+        rets = []
+        for pe in path_returns(self.f.node):
+            self.nonneg = []
+            undec = []
+            last = None
+            for t, pol in pe.guards:
+                if isinstance(t, ast.Call) and isinstance(t.func, ast.Name) and t.func.id in ("__loop__", "__except__"):
+                    self.unknown.append(pe.node)
+                    continue
+                last = t
+                P = self.cond_poly(t)
+                if P is None:
+                    undec.append(t)
+                    continue
+                self.nonneg.append(P if pol else -P - 1)
+            for e in pe.effects:
+                self.unknown.append(e)
+            if pe.kind == "return":
+                b = self.bval(pe.value) if pe.value is not None else None
+                rets.append((b, pe.node, list(self.nonneg), pe.value))
+            elif pe.kind == "raise":
+                exc = ""
+                if pe.value is not None:
+                    e = pe.value.func if isinstance(pe.value, ast.Call) else pe.value
+                    exc = norm(e)
+                self.raises.append((list(self.nonneg), exc, pe.node, undec, last))
+            else:
+                rets.append((None, self.f.node, list(self.nonneg), None))
+        for b, st, nonneg, value in rets:
+            guards = []
+            for cons, exc, node, undec, last in self.raises:
+                comp = [P for P in cons if any((-P - 1) == q for q in nonneg)]
+                P = comp[0] if len(comp) == 1 and not undec else None
+                guards.append((P, exc, node, norm(last) if last is not None else ""))
+            self.returns.append((b, st, nonneg, guards, value))
 
     # -- expression evaluation
     def num(self, n):
-        if isinstance(n, ast.Constant) and isinstance(n.value, int):
+        if isinstance(n, ast.Constant) and isinstance(n.value, int) and not isinstance(n.value, bool):
             return Poly.const(n.value)
         if isinstance(n, ast.Name):
             if n.id == self.size_p:
                 return self.S
-            v = self.env.get(n.id)
-            return v if isinstance(v, Poly) else None
+            return None
         if isinstance(n, ast.Call) and norm(n.func) == "len" and len(n.args) == 1:
             b = self.bval(n.args[0])
             if b is None:
@@ -84,21 +121,19 @@ class WriteAnalysis:
                 return a - b
             if isinstance(n.op, ast.Mult):
                 return a * b
+        if isinstance(n, ast.UnaryOp) and isinstance(n.op, ast.USub):
+            a = self.num(n.operand)
+            return -a if a is not None else None
         if isinstance(n, ast.Call) and norm(n.func) == "max" and len(n.args) == 2:
             a, b = self.num(n.args[0]), self.num(n.args[1])
             if a is not None and a.is_const() and a.const_value() == 0 and b is not None:
-                self.nonneg.append(b) if False else None
                 return b if any(b == c for c in self.nonneg) else None
         return None
 
     def bval(self, n):
         if isinstance(n, ast.Constant) and isinstance(n.value, bytes):
             return BVal([("const", n.value)])
-        if isinstance(n, ast.Name):
-            v = self.env.get(n.id)
-            return v if isinstance(v, BVal) else None
         if isinstance(n, ast.Call) and isinstance(n.func, ast.Attribute) and n.func.attr == "encode":
-            self.encodes.append(n)
             if isinstance(n.func.value, ast.Name) and n.func.value.id == self.data_p:
                 return BVal([("enc", n)])
             return BVal([("other", norm(n))])
@@ -107,6 +142,15 @@ class WriteAnalysis:
             if a is None or b is None:
                 return None
             return BVal(a.parts + b.parts)
+        if isinstance(n, ast.Call) and isinstance(n.func, ast.Attribute) and n.func.attr == "join" and isinstance(n.func.value, ast.Constant) and n.func.value.value == b"" \
+                and len(n.args) == 1 and isinstance(n.args[0], (ast.Tuple, ast.List)):
+            parts = []
+            for e in n.args[0].elts:
+                b = self.bval(e)
+                if b is None:
+                    return None
+                parts += b.parts
+            return BVal(parts)
         if isinstance(n, ast.BinOp) and isinstance(n.op, ast.Mult):
             for x, y in ((n.left, n.right), (n.right, n.left)):
                 if isinstance(x, ast.Constant) and isinstance(x.value, bytes) and len(x.value) == 1:
@@ -116,6 +160,10 @@ class WriteAnalysis:
                     if x.value == b"\x00":
                         return BVal([("zeros", k)])
                     return BVal([("other", f"{x.value!r}*{k}")])
+        if isinstance(n, ast.Call) and norm(n.func) in ("bytes", "bytearray") and len(n.args) == 1 and not n.keywords:
+            k = self.num(n.args[0])
+            if k is not None:
+                return BVal([("zeros", k)])
         if isinstance(n, ast.Subscript):
             self.slices.append(n)
             return BVal([("other", norm(n))])
@@ -130,6 +178,9 @@ class WriteAnalysis:
 
     def cond_poly(self, test):
         """Return Poly P such that test is true iff P >= 0 (for integer comparisons), else None."""
+        if isinstance(test, ast.UnaryOp) and isinstance(test.op, ast.Not):
+            P = self.cond_poly(test.operand)
+            return (-P - 1) if P is not None else None
         if isinstance(test, ast.Compare) and len(test.ops) == 1:
             a, b = self.num(test.left), self.num(test.comparators[0])
             if a is None or b is None:
@@ -144,44 +195,6 @@ class WriteAnalysis:
             if isinstance(op, ast.LtE):
                 return b - a
         return None
-
-    def _block(self, stmts):
-        for st in stmts:
-            if isinstance(st, ast.Expr) and isinstance(st.value, ast.Constant):
-                continue
-            if isinstance(st, ast.Assign) and len(st.targets) == 1 and isinstance(st.targets[0], ast.Name):
-                b = self.bval(st.value)
-                if b is not None:
-                    self.env[st.targets[0].id] = b
-                    continue
-                v = self.num(st.value)
-                if v is not None:
-                    self.env[st.targets[0].id] = v
-                    continue
-                self.unknown.append(st)
-                continue
-            if isinstance(st, ast.If):
-                raises = [s for s in st.body if isinstance(s, ast.Raise)]
-                if raises and not st.orelse:
-                    P = self.cond_poly(st.test)
-                    exc = ""
-                    if raises[0].exc is not None:
-                        e = raises[0].exc.func if isinstance(raises[0].exc, ast.Call) else raises[0].exc
-                        exc = norm(e)
-                    self.guards.append((P, exc, st))
-                    if P is not None:
-                        # fall-through: P < 0  <=>  -P - 1 >= 0
-                        self.nonneg.append(-P - 1)
-                    continue
-                self.unknown.append(st)
-                continue
-            if isinstance(st, ast.Return):
-                b = self.bval(st.value) if st.value is not None else None
-                self.returns.append((b, st, list(self.nonneg), list(self.guards)))
-                continue
-            if isinstance(st, ast.Raise):
-                continue
-            self.unknown.append(st)
 
 
 def codec_of(node):
@@ -212,12 +225,25 @@ def nul_cut(prog: Program):
                     and isinstance(v.args[0], ast.Constant) and v.args[0].value in (b"\x00", b"\0") and isinstance(v.func.value, ast.Name):
                 pos_names[n.targets[0].id] = (v.func.attr, v.func.value.id, n)
 
+    def is_cut(base):
+        return isinstance(base, ast.Subscript) and isinstance(base.value, ast.Name) and base.value.id in field_names and isinstance(base.slice, ast.Slice) \
+            and base.slice.lower is None and base.slice.step is None and isinstance(base.slice.upper, ast.Name) and base.slice.upper.id in pos_names \
+            and pos_names[base.slice.upper.id][1] == base.value.id and pos_names[base.slice.upper.id][0] == "index"
+
     def in_valueerror_handler(st):
         """st lies in an `except ValueError` handler of a try whose body calls .index(b'\\0') on the field"""
         for t in walk_no_nested(fn):
             if isinstance(t, ast.Try):
                 has_index = any(isinstance(c, ast.Call) and isinstance(c.func, ast.Attribute) and c.func.attr == "index" and c.args
                                 and isinstance(c.args[0], ast.Constant) and c.args[0].value == b"\x00" for b in t.body for c in ast.walk(b))
+                if not has_index:
+                    # the only thing that can raise in the try body is the decode of the bytes BEFORE the first NUL: the handler
+                    # then decodes the same leading bytes (plus more) with the same codec, which fails the same way - the
+                    # handler yields no text that differs from the cut
+                    calls = [c for b in t.body for c in ast.walk(b) if isinstance(c, ast.Call)]
+                    decs = [c for c in calls if isinstance(c.func, ast.Attribute) and c.func.attr == "decode" and is_cut(c.func.value)]
+                    if calls and len(decs) == len(calls):
+                        has_index = True
                 for h in t.handlers:
                     if any(s is st for b in h.body for s in ast.walk(b)):
                         return has_index and h.type is not None and norm(h.type) in ("ValueError",)
@@ -279,3 +305,39 @@ def nul_cut(prog: Program):
         else:
             out.append((True, r, f"decode applied to the bytes before the first NUL ({kind})"))
     return f, out
+
+
+def call_args(call, names):
+    """positional + keyword arguments of a call, keyed by the callee's parameter names"""
+    out = {}
+    for n_, a in zip(names, call.args):
+        out[n_] = a
+    for k in call.keywords:
+        if k.arg:
+            out[k.arg] = k.value
+    return out
+
+
+def bread_delegates(prog: Program):
+    """BTSString.bread returns, on every path, BTSString.read(size, <stream>.read(size), ...) - positional or keyword, through
+    locals or not - and does not decode / cut on its own."""
+    from .facts import return_leaves
+    cls = prog.need_cls("BTSString", "tdfTypes")
+    br = prog.need_method(cls, "bread")
+    rd = prog.need_method(cls, "read")
+    own = [c for c in walk_no_nested(br.node) if isinstance(c, ast.Call) and isinstance(c.func, ast.Attribute) and c.func.attr in ("decode", "split", "rstrip", "strip", "partition")]
+    if own:
+        return False
+    leaves = return_leaves(br.node)
+    if not leaves:
+        return False
+    for _, v, _ in leaves:
+        if not (isinstance(v, ast.Call) and norm(v.func) in ("BTSString.read", "cls.read")):
+            return False
+        a = call_args(v, rd.params)
+        sz = a.get(rd.params[0])
+        dat = a.get(rd.params[1]) if len(rd.params) > 1 else None
+        if not (sz is not None and norm(sz) == br.params[1] and isinstance(dat, ast.Call) and isinstance(dat.func, ast.Attribute) and dat.func.attr == "read"
+                and norm(dat.func.value) == br.params[0] and len(dat.args) == 1 and norm(dat.args[0]) == br.params[1]):
+            return False
+    return True
